@@ -420,3 +420,42 @@ def constructors(cfg):
         yield "rejects_negative_sigma", raises(lambda: A.LogNormalFadingChannel(shadow_sigma_db=-1.0, snr_db=1.0)), "shadow_sigma_db < 0 must be rejected"
         yield "base_requires_sigma", raises(lambda: A.FlatFadingChannel("lognormal", 1, snr_db=1.0)), "lognormal without shadow_sigma_db must be rejected"
         yield "rejects_unknown_type", raises(lambda: A.FlatFadingChannel("nakagami", 1, snr_db=1.0)), "unknown fading type must be rejected"
+
+
+# ================================================================================================ long inputs (closed, same-seed relation)
+@obligation("C13.long_inputs_reference_power", function=FF + "forward", configs=lambda tier: [Cfg("long", shp) for shp in ("1x6000", "2x6000", "2x2x64x64")], kind="ground", engine="ground")
+def long_inputs_reference_power(cfg):
+    """SNR mode, inputs longer than any internal window: the noise scale is set by the mean power of the WHOLE faded signal.
+    Deterministic same-seed relation: x (weak first 4500 samples, strong rest) and its time reversal have the same mean |h.x|^2
+    under a constant supplied gain, so with the same RNG seed the added noise n = y - h.x must be the same tensor; and scaling x by
+    10 must scale n by 10."""
+    from kaira.channels.analog import FlatFadingChannel
+
+    shape = tuple(int(v) for v in cfg[1].split("x"))
+    B = shape[0]
+    L = int(np.prod(shape[1:]))
+    prof = torch.cat([torch.full((4500,), 0.1), torch.full((L - 4500,), 3.0)])
+    x = (prof.unsqueeze(0).repeat(B, 1) * torch.tensor([1.0, -1.0]).repeat(L // 2 + 1)[:L]).reshape(shape).to(torch.complex64)
+    xr = torch.flip(x.reshape(B, L), dims=[1]).reshape(shape)
+    h = torch.full((B, L), 0.8 + 0.6j, dtype=torch.complex64)
+    bad = []
+
+    def noise(inp, seed=11):
+        torch.manual_seed(seed)
+        ch = FlatFadingChannel("rayleigh", 4, snr_db=10.0)
+        y = ch(inp, csi=h)  # supplied gains are given per flattened item (B, L), as in C13.supplied_csi_noise
+        return (y.reshape(B, L) - h * inp.reshape(B, L))
+
+    try:
+        n1, n2, n3 = noise(x), noise(xr), noise(10 * x)
+        p_sig = float((h * x.reshape(B, L)).abs().pow(2).mean())
+        p_n = float(n1.abs().pow(2).mean())
+        if not torch.allclose(n1, n2, rtol=1e-4, atol=1e-6):
+            bad.append(f"noise for x and for its time reversal differ (same seed, same total power): max |n1-n2| = {float((n1 - n2).abs().max()):.4g}, |n1| rms {float(n1.abs().pow(2).mean().sqrt()):.4g}")
+        if not torch.allclose(10 * n1, n3, rtol=1e-4, atol=1e-5):
+            bad.append("noise does not scale with the signal amplitude")
+        if not (0.8 < p_n / (p_sig / 10.0) < 1.25):
+            bad.append(f"noise power {p_n:.5g} vs mean|h.x|^2 / snr = {p_sig / 10.0:.5g}")
+    except Exception as e:
+        bad.append(f"raised {e!r}")
+    yield "noise_scale_follows_the_power_of_the_whole_signal", not bad, "; ".join(bad) or f"shape {shape}: same-seed noise identical for x and reversed x, scales with amplitude, power within 25% of mean|h.x|^2/snr ({L * B} samples)"
